@@ -768,6 +768,87 @@ def small_confs(ctx):
     return out
 
 
+# --------------------------------------------------------------------------- deep states
+def deep_tail(ctx, hcmd, dcmd):
+    """an operation-atomic history first (the 32-bit-free-running cursors several times round the ring,
+    the queue alternately full and empty), then every schedule with at most two preemptions of the last
+    operation(s) of every thread"""
+    from concurrent.futures import ThreadPoolExecutor
+    rng, q = ctx.rng, ctx.quick
+    jobs0 = []
+    for i in range(90 if q else 1200):
+        if i % 3 != 2:
+            wl = rng.choice(WLS)
+            rm = rng.choice(RMS)
+            req = rng.choice([3, 4, 4, 5, 8])      # (a ring of 2 slots accepts nothing)
+            cap = pow2(req)
+            W = 1 if wl == "single" else rng.choice([1, 2, 2])
+            tot = rng.randrange(cap + 1, 4 * cap + 2)
+            ns = [tot // W + (1 if w < tot % W else 0) for w in range(W)]
+            run = chan_run(wl, rm, req, 0, tot, ns, "")
+            room = max(1, cap - 2)
+            nthr, reader, wr, rd = W + 1, [W], list(ns), [tot]
+        else:
+            cap = rng.choice([1, 2, 2, 3, 4])
+            P, C = rng.choice([1, 2]), rng.choice([1, 2])
+            tot = rng.randrange(cap + 1, 4 * cap + 3)
+            ns = [tot // P + (1 if w < tot % P else 0) for w in range(P)]
+            ks = [tot // C + (1 if c < tot % C else 0) for c in range(C)]
+            run = abq_run(cap, ns, ks, "")
+            room = cap
+            wr, rd = list(ns), list(ks)
+        # operation order: never more than `room` messages in flight, never a read on empty; the last
+        # operation (sometimes two) of every thread is left to the exploration
+        P_ = len(wr)
+        left_w = [max(0, n - rng.choice([1, 1, 2])) for n in wr]
+        left_r = [max(0, n - rng.choice([1, 1, 2])) for n in rd]
+        order, fly = [], 0
+        while True:
+            cw = [w for w in range(P_) if left_w[w] > 0] if fly < room else []
+            cr = [c for c in range(len(rd)) if left_r[c] > 0] if fly > 0 else []
+            if not cw and not cr:
+                break
+            if cw and (not cr or rng.random() < 0.55):
+                w = rng.choice(cw)
+                left_w[w] -= 1
+                fly += 1
+                order.append(w)
+            else:
+                c = rng.choice(cr)
+                left_r[c] -= 1
+                fly -= 1
+                order.append(P_ + c)
+        jobs0.append((run, order))
+    first = vlib.run_cases(hcmd, [r["conf"] + ["sched opseq " + " ".join(map(str, o)), "run"] for r, o in jobs0])
+    jobs = []
+    for (r, o), a in zip(jobs0, first):
+        sched = next((l.split()[1:] for l in a["out"] if l.startswith("schedule ")), None)
+        k = next((int(l.split()[1]) for l in a["out"] if l.startswith("#opseq-steps")), None)
+        if a["crash"] or sched is None or k is None:
+            continue
+        jobs.append((r, sched[:k]))
+    runs = []
+    stats = {"histories": len(jobs), "tail_schedules": 0, "exhausted": 0,
+             "prefix_steps_total": sum(len(p) for _, p in jobs)}
+
+    def explore(job):
+        r, pre = job
+        g = vlib.explore_schedules(hcmd, r["conf"], 2, max_runs=150 if q else 1500, start_prefix=pre, workers=1)
+        out = []
+        for sc, _ in g:
+            x = dict(r)
+            x["sched"] = "replay " + " ".join(sc)
+            out.append(x)
+        return out, g.exhausted
+    with ThreadPoolExecutor(vlib.NPROC) as ex:
+        for out, exh in ex.map(explore, jobs):
+            runs += out
+            stats["tail_schedules"] += len(out)
+            stats["exhausted"] += bool(exh)
+    ctx.cov["deep_tail"] = stats
+    vlib.conc_correspondence(ctx, hcmd, dcmd, runs, judge=judge, label="tieC_deep_tail", escalate=False)
+
+
 # --------------------------------------------------------------------------- main
 def main(ctx):
     ctx.cov["trusted_base"] = TRUSTED
@@ -800,6 +881,7 @@ def main(ctx):
     fine_runs(ctx, hcmd, gen_abq(ctx, 150 if q else 1500, fine=True) + gen_dbuf(ctx, 150 if q else 1500, fine=True),
               "lock_coverage")
     systematic(ctx, hcmd, dcmd, small_confs(ctx), "tieC_systematic")
+    deep_tail(ctx, hcmd, dcmd)
 
 
 def replay(ctx, path):
